@@ -15,6 +15,10 @@ func init() { register("C17", checkC17) }
 func checkC17(p *Prog, r *Report) {
 	r.rule("C17.field-loops: every loop bounded by NumField() in Wrap, BuildType, Check and the Wrapper's methods visits fields 0 … NumField()-1, so the wrapper reports every declared field (shared with C20)")
 	checkFieldLoopsFull(p, r, "C17")
+	r.rule("C17.set-always-stores: every return of Wrapper.setField is preceded, on every path, by a reflect Set on the located field")
+	r.rule("C17.equal-counts: Equal compares the lengths of the two attribute lists and of the two relationship lists with != and returns false when they differ")
+	checkSetAlwaysStores(p, r)
+	checkEqualCounts(p, r)
 	r.rule("R1 kind table: zero values (typed nil pointers for nullable kinds), name tables and %T classification (see C01), and the Set gate of SoftResource on kind and nullability")
 	r.rule("C17.zero-fill: SoftResource.check stores, for every attribute without a value, GetZeroValue(<that attribute's kind>, <that attribute's nullability>), and for every relationship without a value \"\" when it is to-one and an empty []string otherwise")
 	r.rule("C17.get-returns-stored: SoftResource.Get returns GetID() for \"id\", the value found in the data map under the key for fields of the type, and nil otherwise - nothing is transformed on the way out")
@@ -526,4 +530,82 @@ func loopHeaderOf(b *ssa.BasicBlock) *ssa.BasicBlock {
 		}
 	}
 	return b
+}
+
+// checkSetAlwaysStores: every return of Wrapper.setField has executed a
+// reflect Set on the located field (no value - a typed nil pointer included -
+// is silently ignored).
+func checkSetAlwaysStores(p *Prog, r *Report) {
+	sf := p.Fn("(*Wrapper).setField")
+	if sf == nil {
+		r.fail("anchor (*Wrapper).setField not found")
+		return
+	}
+	n := 0
+	eachInstr(sf, func(ins ssa.Instruction) {
+		ret, ok := ins.(*ssa.Return)
+		if !ok {
+			return
+		}
+		n++
+		stored := mustPassInstr(sf, ret, func(i2 ssa.Instruction) bool {
+			c, ok := i2.(*ssa.Call)
+			if !ok || c.Common().StaticCallee() == nil {
+				return false
+			}
+			nm := fullName(c.Common().StaticCallee())
+			return nm == "reflect.(Value).Set" || nm == "reflect.(Value).SetString"
+		})
+		r.decide(stored, "C17.set-always-stores", "setField:"+p.describe(ret)+"@"+p.pos(ret.Pos()), p.pos(ret.Pos()), "a Set call precedes this return on every path", "Wrapper.setField can return without having stored anything: some values (e.g. a typed nil pointer) are silently ignored, so Get does not read back what was Set")
+	})
+	r.floor("returns of setField", n, 1)
+}
+
+// checkEqualCounts: Equal rejects resources whose attribute or relationship
+// lists differ in length (with != on the two lengths) before comparing them
+// position by position.
+func checkEqualCounts(p *Prog, r *Report) {
+	eq := p.Fn("Equal")
+	if eq == nil {
+		return
+	}
+	n := 0
+	eachInstr(eq, func(ins ssa.Instruction) {
+		ifi, ok := ins.(*ssa.If)
+		if !ok {
+			return
+		}
+		bo, ok := ifi.Cond.(*ssa.BinOp)
+		if !ok {
+			return
+		}
+		lx, _ := callOf(bo.X)
+		ly, _ := callOf(bo.Y)
+		if lx == nil || ly == nil || builtinName(lx.Common()) != "len" || builtinName(ly.Common()) != "len" {
+			return
+		}
+		// only the guards on the collected lists (slices), not the to-many value guards
+		if _, isSlice := lx.Common().Args[0].Type().Underlying().(*types.Slice); !isSlice {
+			return
+		}
+		if fmtTypeString(lx.Common().Args[0].Type()) == "[]string" {
+			return
+		}
+		n++
+		good := bo.Op == token.NEQ
+		if good {
+			tb := ifi.Block().Succs[0]
+			ret, isRet := tb.Instrs[len(tb.Instrs)-1].(*ssa.Return)
+			if cb, isC := constBool(func() ssa.Value {
+				if isRet {
+					return ret.Results[0]
+				}
+				return nil
+			}()); !isRet || !isC || cb {
+				good = false
+			}
+		}
+		r.decide(good, "C17.equal-counts", "Equal:"+p.describe(bo), p.pos(bo.Pos()), "different lengths give false", "Equal does not reject resources whose field lists have different lengths with !=: a resource whose fields are a prefix of the other's compares equal (and Equal is not symmetric)")
+	})
+	r.floor("length guards in Equal", n, 2)
 }
